@@ -51,6 +51,7 @@ type FuncContract struct {
 	Ghosts      []string
 	GhostDecls  []GhostDecl   // ghost NAME = INIT: integer ghost variables, initialised at entry
 	GhostSteps  []GhostUpdate // site append: ghost NAME = EXPR: updates executed at every append site, in order
+	MapSites    []Clause                 // obligations at every map update of the function ($map, $key, $value)
 	StoreReq    map[string][]Clause      // "field#n" -> obligations before the n-th store to that field ($new is the stored value)
 	StoreUse    map[string][]*CExpr      // "field#n" -> lemma instances assumed at that store
 	StoreGhost  map[string][]GhostUpdate // "field#n" -> ghost updates at that store (evaluated before it)
@@ -525,6 +526,19 @@ func (cs *Contracts) parseFunc(pkg, file string, e *rawEntry) error {
 		case "site":
 			// site append: requires[label] EXPR
 			rest := strings.TrimSpace(strings.TrimPrefix(c.text, "site"))
+			if strings.HasPrefix(rest, "mapupdate:") {
+				// site mapupdate: requires[label] EXPR   ($map, $key, $value)
+				label, ex := splitLabel("requires", strings.TrimSpace(strings.TrimPrefix(rest, "mapupdate:")))
+				cl, err := mkClause(file, c.line, label, ex)
+				if err != nil {
+					return err
+				}
+				if cl.Label == "" {
+					cl.Label = strconv.Itoa(len(fc.MapSites))
+				}
+				fc.MapSites = append(fc.MapSites, cl)
+				continue
+			}
 			if strings.HasPrefix(rest, "store ") && !strings.Contains(rest, ": from") {
 				// site store FIELD#N: requires[label] EXPR | site store FIELD#N: ghost NAME = EXPR
 				j := strings.Index(rest, ":")
